@@ -16,6 +16,7 @@ import (
 
 	"verifharness/internal/evid"
 	"verifharness/internal/fakeconn"
+	"verifharness/internal/svc"
 )
 
 // stressCase is a free-running (real concurrency) case.
@@ -366,6 +367,24 @@ func TestC03Stress(t *testing.T) {
 			case <-done:
 			case <-time.After(30 * time.Second):
 				close(quit)
+				// with the callers gone: if every goroutine inside go-res is blocked, Shutdown
+				// among them, nothing will ever wake it (looked at twice)
+				callersGone := make(chan struct{})
+				go func() { wg.Wait(); close(callersGone) }()
+				select {
+				case <-callersGone:
+					st1 := svc.Stalled("Shutdown")
+					time.Sleep(300 * time.Millisecond)
+					st2 := svc.Stalled("Shutdown")
+					select {
+					case <-done:
+					default:
+						if st1 != "" && st2 != "" {
+							rt.Fatalf("Shutdown never returns: %s", st2)
+						}
+					}
+				case <-time.After(30 * time.Second):
+				}
 				rt.Fatalf("VERIF-INCONCLUSIVE: Shutdown did not return within 30s in free-running mode (the bubble variant decides hangs exactly)")
 			}
 			select {
